@@ -161,7 +161,7 @@ impl Property for C10 {
             let d = wire::gen_valid_draft(&mut c);
             Case::Wire(crate::cases::WireCase { bytes: wire::valid_bytes(&d), label: "valid".into(), has_custom: d.has_custom })
         });
-        let cross = history::cross_sequences(quick).into_iter().chain(history::depth1_rest(&[])).map(Case::Hist);
+        let cross = history::cross_sequences(quick).into_iter().chain(history::depth1_rest(&[])).chain(history::long_repeats(quick)).map(Case::Hist);
         Box::new(v.into_iter().chain(cross).chain(w))
     }
     fn fuzz_plans(&self) -> Vec<(&'static str, u64)> {
